@@ -6,6 +6,11 @@ Families (one per host of DESIGN.md C12)
                  PythiaServicer through a harness PolicyFactory that returns
                  PartiallySerializableDesignerPolicy or DesignerPolicy around
                  the recording designer (harness/c12_rec.py).
+  service_alive  the same real servicer, but the PolicyFactory keeps ONE
+                 PartiallySerializableDesignerPolicy (and the
+                 ServicePolicySupporter it was built with) alive per study and
+                 re-uses it for every request; dropped on rebuild_policy /
+                 lose_state / servicer restart.
   inram_alive    InRamPolicySupporter + InRamDesignerPolicy kept alive (the
                  benchmark host, PolicySuggester.from_designer_factory).
   inram_rebuilt  InRamPolicySupporter + PartiallySerializableDesignerPolicy,
@@ -64,7 +69,7 @@ def _weighted(st, table):
   return st.sampled_from(idx).flatmap(lambda i: table[i][1]).map(list)
 
 
-def service_strategy():
+def service_strategy(policies=('ps', 'ps', 'ps', 'dp')):
   from hypothesis import strategies as st
   worker = st.sampled_from(['w1', 'w1', 'w2', 'w3', 'new', 'new'])
   ref = st.integers(0, 7)
@@ -82,21 +87,27 @@ def service_strategy():
             [1, 2, 2, 3, 3, 4, 5, 6]))),
         (2, st.tuples(st.just('stop'), ref)),
     ]
-    if policy == 'ps':
+    if policy in ('ps', 'ka'):
       table.append((2, st.tuples(st.just('lose_state'),
                                  st.sampled_from(LOSE_KINDS))))
+    if policy == 'ka':
+      table.append((2, st.tuples(st.just('rebuild_policy'))))
     if backend == 'sqlfile':
       table.append((2, st.tuples(st.just('restart'))))
     return st.lists(_weighted(st, table), min_size=8, max_size=40)
 
   return st.tuples(
       st.sampled_from(['ram', 'ram', 'sqlmem', 'sqlmem', 'sqlfile']),
-      st.sampled_from(['ps', 'ps', 'ps', 'dp'])).flatmap(
+      st.sampled_from(list(policies))).flatmap(
           lambda bp: st.fixed_dictionaries({
               'backend': st.just(bp[0]), 'policy': st.just(bp[1]),
               'deliveries': st.lists(st.sampled_from(
                   [0, 0, 0, 0, 1, 2, -1]), min_size=10, max_size=10),
               'ops': ops(*bp)}))
+
+
+def service_alive_strategy():
+  return service_strategy(policies=('ka',))
 
 
 def inram_strategy(rebuilt):
@@ -163,6 +174,13 @@ class _Flags:
       self.armed = True
 
 
+def _reuses_given_id(rec, ts):
+  """Would the next CreateTrial get an id that was given to the algorithm
+  and that no update since could have seen to be free?"""
+  nxt = (int(ts[-1].id) if ts else 0) + 1
+  return nxt in rec.epoch_ids and nxt not in rec.prunable_ids
+
+
 def _finish(out, rec, flags, min_updates=2):
   if rec.known_hits:
     out.cls('known_trial_cache_hit')
@@ -195,18 +213,28 @@ def check_service(case):
   out = core.Out()
   policy = case['policy']
   host = 'service_' + policy
-  rec = R.Recorder(out, host, incremental=(policy == 'ps'),
+  rec = R.Recorder(out, host, incremental=(policy != 'dp'),
                    deliveries=case['deliveries'])
   factory = R.make_factory(rec)
+  kept = {}  # study name -> policy object kept alive ('ka')
 
   class Factory(pythia.PolicyFactory):
+    """ps/dp: a new policy per request (what the service does by default);
+    ka: one policy object (with the supporter it was built with) per study,
+    re-used for every request until the driver drops it."""
 
     def __call__(self, problem_statement, algorithm, policy_supporter,
                  study_name):
-      if policy == 'ps':
-        return dp.PartiallySerializableDesignerPolicy(
-            problem_statement, policy_supporter, factory)
-      return dp.DesignerPolicy(policy_supporter, factory)
+      if policy == 'dp':
+        return dp.DesignerPolicy(policy_supporter, factory)
+      if policy == 'ka' and study_name in kept:
+        out.cls('kept_policy_reused')
+        return kept[study_name]
+      pol = dp.PartiallySerializableDesignerPolicy(
+          problem_statement, policy_supporter, factory)
+      if policy == 'ka':
+        kept[study_name] = pol
+      return pol
 
   tmp = _Scratch()
   backend = case['backend']
@@ -304,6 +332,15 @@ def check_service(case):
         else:
           req.final_measurement.CopyFrom(svc.measurement(R.value_of(k)))
         box['s'].CompleteTrial(req)
+      elif (kind in ('add_completed', 'request') and policy == 'ka'
+            and KNOWN_TRIAL_CACHE and _reuses_given_id(rec, ts)):
+        # known finding missed/service_ps/id_reused_after_delete (the cache
+        # dedups by id): not re-reported for this host, the trigger - a
+        # CreateTrial that is handed an id already given to the algorithm, with
+        # no request in between at which the loader could forget it - is
+        # avoided instead.
+        out.cls('avoided_known_id_reuse')
+        continue
       elif kind == 'add_completed':
         k = rec.new_token()
         t = new_trial_proto(k)
@@ -365,8 +402,14 @@ def check_service(case):
           study.study_spec.metadata.extend(keep)
           box['s'].datastore.update_study(study)
         rec.md_lost = True
+        kept.clear()  # ka: the process that held the policy is gone too
         out.cls('lose_state', 'lose_' + lk)
+      elif kind == 'rebuild_policy':
+        if kept:
+          out.cls('rebuild_policy')
+        kept.clear()
       elif kind == 'restart':
+        kept.clear()  # a new server process holds no policy objects
         svc.close_servicer(box['s'])
         box['s'] = svc.make_servicer(backend, policy_factory=Factory(),
                                      dbpath=dbpath)
@@ -584,6 +627,16 @@ def families(tier):
                       'update_while_stopping_trial',
                       'external_completed_trial', 'infeasible_completion',
                       'trial_id_reused_after_given', 'pythia_invoked')),
+      core.Family('service_alive', check_service,
+                  strategy=service_alive_strategy,
+                  budget={'quick': 1000, 'thorough': 20000},
+                  shards={'quick': 5, 'thorough': 16},
+                  required_classes=(
+                      'service_ka', 'kept_policy_reused', 'rebuild_policy',
+                      'lose_state', 'restart_from_lost_state', 'ram', 'sqlmem',
+                      'sqlfile', 'servicer_restart', 'delete',
+                      'out_of_order_completion', 'external_completed_trial',
+                      'update_while_stopping_trial', 'pythia_invoked')),
       core.Family('inram_alive', check_inram_alive,
                   strategy=inram_strategy(False),
                   budget={'quick': 3000, 'thorough': 100000},
